@@ -84,13 +84,17 @@ def live (conc : Bool) (mode : Mode) (nmedia : Nat) (data legacy muxreq : Bool) 
   -- registered at that moment (channel 0 of the offerer is known to both); all four messages arrive
   let dc2T :=
     if data then
-      let o1 := dcAlloc eps.1.role [0]
-      let a1 := dcAlloc eps.2.role [0]
-      let o2 := dcAlloc eps.1.role [0, o1, a1]
-      let a2 := dcAlloc eps.2.role [0, o1, a1, o2]
+      let e := dcAlloc eps.2.role []
+      let o1 := dcAlloc eps.1.role [0, e]
+      let a1 := dcAlloc eps.2.role [0, e]
+      let o2 := dcAlloc eps.1.role [0, e, o1, a1]
+      let a2 := dcAlloc eps.2.role [0, e, o1, a1, o2]
       s!"{o1}.{a1}.{o2}.{a2}:1111"
     else "-"
-  s!"conn=1 roles={roleText eps.1.role}/{roleText eps.2.role} setup={setupO}/{setupA} profile={profO}/{profA} keys={keysO}/{keysA} bundle={b01 bundleO}/{b01 bundleA} mux={b01 muxO}/{b01 muxA} ports={ports bundleO}/{ports bundleA} extra={extra bundleO}/{extra bundleA} data={dataT} rtp={bits delivered}/{bits delivered} dc2={dc2T} conc={if conc then "1111" else "-"}"
+  -- the answerer's channel created after it applied the offer (role already server) and before its association
+  -- existed: the first id of its parity; announced at the offerer, one message each way on it
+  let earlyT := if data then s!"{dcAlloc eps.2.role []}:11" else "-"
+  s!"conn=1 roles={roleText eps.1.role}/{roleText eps.2.role} setup={setupO}/{setupA} profile={profO}/{profA} keys={keysO}/{keysA} bundle={b01 bundleO}/{b01 bundleA} mux={b01 muxO}/{b01 muxA} ports={ports bundleO}/{ports bundleA} extra={extra bundleO}/{extra bundleA} data={dataT} rtp={bits delivered}/{bits delivered} early={earlyT} dc2={dc2T} conc={if conc then "1111" else "-"}"
 
 def optHex (s : String) : Option (Option (List UInt8)) :=
   if s = "-" then some none else (unhex s).map some
